@@ -34,9 +34,9 @@ def instances(build, tier, seed):
         for sh in shapes:
             L.append(Inst('strlit.%s.%s' % (pn, sh), 'h_strlit.c', {'PREFIX1': pre, 'SHAPE1': '"%s"' % sh}, units=['utf', 'type', 'targ', 'util'], overrides=['fatal', 'xmalloc', 'error'],
                           native_units=natives, unwind=10, unwindset=['strlen.0:40', 'strcmp.0:14', 'main.0:42', 'main.1:42', 'main.2:42', 'stringconcat.0:3', 'stringconcat.1:%d' % (len(sh) + 2), 'stringconcat.2:3', 'build.0:8'],
-                          family='strlit', timeout=300 if tier == 'quick' else 1800, bound={'prefix': pn, 'items': sh, 'contents': 'symbolic'}))
+                          family='strlit', timeout=300 if tier == 'quick' else 1800, witness=(len(sh) <= 2 or tier != 'quick'), bound={'prefix': pn, 'items': sh, 'contents': 'symbolic'}))
     # concatenation of two literal tokens: the escape state must not leak across tokens, prefixes combine (6.4.5p5), mixed prefixes are diagnosed
-    for p1, p2, s1, s2 in ((0, 0, 'x', '2'), (0, 2, 'a2', 'x4'), (2, 0, 'o', '4'), (4, 0, '3', 'x'), (0, 3, 'x', '3'), (1, 1, '4', 'o'), (2, 3, 'a', 'a'), (4, 1, 'a', 'a'), (0, 4, 'x2', '2x')):
+    for p1, p2, s1, s2 in ((0, 0, 'x', '2'), (0, 2, '2', 'x'), (2, 0, 'o', '4'), (4, 0, '3', 'x'), (0, 3, 'x', '3'), (1, 1, '4', 'o'), (2, 3, 'a', 'a'), (4, 1, 'a', 'a'), (0, 4, 'x', '2')) + (((0, 2, 'a2', 'x4'), (0, 4, 'x2', '2x')) if tier == 'thorough' else ()):
         L.append(Inst('strlit.concat.%d%d.%s.%s' % (p1, p2, s1, s2), 'h_strlit.c', {'PREFIX1': p1, 'PREFIX2': p2, 'SHAPE1': '"%s"' % s1, 'SHAPE2': '"%s"' % s2}, units=['utf', 'type', 'targ', 'util'],
                       overrides=['fatal', 'xmalloc', 'error'], native_units=natives, unwind=10,
                       unwindset=['strlen.0:40', 'strcmp.0:14', 'main.0:42', 'main.1:42', 'main.2:42', 'stringconcat.0:4', 'stringconcat.1:%d' % (max(len(s1), len(s2)) + 2), 'stringconcat.2:4', 'build.0:8'],
